@@ -11,6 +11,7 @@ from vlib.world import HOOKS, LATER, READY, World, dumps, pack, unpack
 
 PROPERTY = "C08"
 MAX_ATTEMPTS = 2
+LIMITS = []  # per-row attempt limits seen by the last real_state() call (hidden state: must not be merged away)
 
 
 def mk_world():
@@ -30,10 +31,12 @@ def mk_world():
 def real_state(w):
     c = w.conn
     q = []
-    for r in c.execute("SELECT id,payload,attempts,deliver_at,locked_until FROM queue_messages ORDER BY id"):
+    LIMITS.clear()
+    for r in c.execute("SELECT id,payload,attempts,deliver_at,locked_until,max_attempts FROM queue_messages ORDER BY id"):
         tag = json.loads(r["payload"]).get("execution_id")
         st = "locked" if r["locked_until"] is not None else ("delayed" if r["deliver_at"] == LATER else "ready")
         q.append((tag, r["attempts"], st))
+        LIMITS.append((tag, r["max_attempts"]))  # not part of the reference model, but part of the state identity
     d = [json.loads(r["payload"]).get("execution_id") for r in c.execute("SELECT payload FROM queue_messages_dlq ORDER BY id")]
     return sorted(q), sorted(d)
 
@@ -64,6 +67,7 @@ def op_sequences_job(job):
     from stabilize.queue.messages import StartWorkflow
 
     depth = job["depth"]
+    prefix = list(job.get("prefix") or [])
     w = mk_world()
     q = w.queue
     init_img = pack(w.image())
@@ -94,7 +98,7 @@ def op_sequences_job(job):
 
     while frontier:
         node = frontier.popleft()
-        if len(node.trace) >= depth:
+        if len(node.trace) >= depth + len(prefix):
             if len(samples) < 2:
                 samples.append(list(node.trace))
             continue
@@ -112,6 +116,8 @@ def op_sequences_job(job):
         ops.append("sweep")
         if node.model.dlq:
             ops.append("replay_dlq")
+        if len(node.trace) < len(prefix):
+            ops = [prefix[len(node.trace)]]  # a non-initial start state, reached through the same machinery
         for op in ops:
             w.load(unpack(node.img))
             q._pending.clear()
@@ -222,7 +228,7 @@ def op_sequences_job(job):
                 ok = False
             if not ok:
                 continue
-            key = dumps([rs, sorted(held), nxt, sorted(m.acked)])
+            key = dumps([rs, sorted(LIMITS), sorted(held), nxt, sorted(m.acked)])
             if key in seen:
                 continue
             seen.add(key)
@@ -405,7 +411,14 @@ def crash_job(job):
 
 
 def jobs(tier, seed):
-    js = [{"label": f"ops|depth{9 if tier == 'quick' else 12}", "kind": "ops", "depth": 9 if tier == "quick" else 12},
+    d = 9 if tier == "quick" else 12
+    exhausted = ["poll", "reschedule:a0", "advance", "poll", "reschedule:a0", "sweep"]
+    js = [{"label": f"ops|depth{d}", "kind": "ops", "depth": d},
+          # non-initial start states: one message (pushed either way) already failed to its limit and dead-lettered
+          {"label": f"ops|from 'a0 dead-lettered after its limit' (plain push)|depth{d - 2}", "kind": "ops", "depth": d - 2,
+           "prefix": ["push"] + exhausted},
+          {"label": f"ops|from 'a0 dead-lettered after its limit' (transactional push)|depth{d - 2}", "kind": "ops", "depth": d - 2,
+           "prefix": ["push_txn"] + exhausted},
           {"label": "crash-images in DLQ moves / reschedule", "kind": "crash"}]
     cfgs = ([(2, 2, 2, 3, 8), (2, 3, 2, 2, 4), (3, 2, 1, 2, 4)] if tier == "quick"
             else [(2, 2, 2, 4, 16), (2, 3, 3, 3, 16), (3, 3, 2, 2, 16), (3, 2, 2, 3, 16)])
